@@ -430,7 +430,26 @@ def run(ctx):
     # the namespace covers every signal that can be printed
     if ns_calls:
         sa = [k.value for k in ns_calls[0].keywords if k.arg == "signals"] or ns_calls[0].args[:1]
-        txt = norm(sa[0]) if sa else ""
+        # the argument, with local names replaced by what they were last assigned before the call (any number of intermediate names)
+        defs = {}
+        for n in ast.walk(conv):
+            if isinstance(n, ast.Assign) and len(n.targets) == 1 and isinstance(n.targets[0], ast.Name) and n.lineno < ns_calls[0].lineno:
+                defs.setdefault(n.targets[0].id, []).append(n)
+
+        def expand(e, depth=0):
+            import copy
+            e = copy.deepcopy(e)
+            if depth > 4:
+                return e
+
+            class T(ast.NodeTransformer):
+                def visit_Name(self, x):
+                    cands = [d for d in defs.get(x.id, []) if not any(isinstance(y, ast.Name) and y.id == x.id for y in ast.walk(d.value))]
+                    if isinstance(x.ctx, ast.Load) and cands and x.id not in ("f", "ios"):
+                        return expand(max(cands, key=lambda d: d.lineno).value, depth + 1)
+                    return x
+            return T().visit(e)
+        txt = norm(expand(sa[0])) if sa else ""
         ok = "list_signals(f)" in txt and "list_special_ios(f, ins=True, outs=True, inouts=True)" in txt and "ios" in txt
         ctx.ob("C02.b", VER, "convert", "namespace built over signals | special ios | ios", ok, "" if ok else f"signals = {txt}", ns_calls[0])
     mm = ctx.mod(MEM)
